@@ -10,6 +10,24 @@ VERIF = Path(__file__).resolve().parent.parent
 
 # property -> (technique, level text, level note, design ref)
 CLAIMED = {
+    "C17": (
+        "path-sensitive abstract string domain (leading-slash proof at the join with the upstream base) + exact-sample evaluation of the strip table + call scans (no re-encoding, single non-following fetch) + registration-order analysis",
+        "Static necessary conditions Y1-Y5: at f'{self.upstream}{path}' the path is proven to start with '/' on every path for arbitrary prefix/strip settings (so nothing a client sends can extend the authority), the upstream base is validated and fixed, the query is only appended behind '?'; exact samples of the strip table yield exactly the specified upstream URL (strip iff enabled and match on a segment boundary); no quote/unquote/lower/encode on path or query; exactly one self._client.get(..., follow_redirects=False) through a client built once; locations are registered in order as prefix routes and the router returns at the first match.",
+        "Trusted: CPython ast, engine, urllib.parse (with an authority the path is empty or starts with '/').",
+        "DESIGN.md section 2, C17",
+    ),
+    "C18": (
+        "exception-edge analysis of the fetch (catch-all, every handler returns a body-less 43) + abstract evaluation of the relay for upstream body/charset samples (codec pairing) + literal/def-use checks",
+        "Static necessary conditions Z1-Z4: the upstream fetch is in a try with a catch-all, every handler only reaches returns of GeminiResponse(status 43, no body) and none re-raises; redirects are not followed (literal False); for an upstream text body in a non-UTF-8 charset the returned response re-encodes the body with that declared charset with status/meta passed through, otherwise the upstream response object itself is returned; the fetch is bounded by the location's timeout. Well-formedness of the relayed header is C01.W3. Fault timing is not decided.",
+        "Trusted: CPython ast, engine, str.encode(X) inverting bytes.decode(X) for the declared charset.",
+        "DESIGN.md section 2, C18",
+    ),
+    "C19": (
+        "abstract evaluation of parse_url with exact samples of the urlparse result (authority re-bracketing, port elision, empty path) + def-use of the wire form",
+        "Static necessary conditions N1-N3; idempotence and meaning preservation over ALL URLs are urllib.parse semantics on an infinite domain and are NOT decided. For registered-name, IPv4 and IPv6 samples with default/other/no port the tuple handed to urlunparse is (gemini, authority with IPv6 literals re-bracketed and the default port elided, path with '/' for empty, params, query, fragment) and the ParsedURL fields equal the same components; the client sends parse_url(url).normalized and the server hands middleware request.normalized_url = parsed_url.normalized.",
+        "Trusted: CPython ast, engine, urllib.parse field semantics.",
+        "DESIGN.md section 2, C19",
+    ),
     "C03": (
         "edge-blocking dominance of tofu_db.verify over awaiting the response + abstract evaluation of every literal verify() outcome through both callers (writer/reader table) + SQL literal reader + def-use of fingerprint and endpoint",
         "Static necessary conditions T1-T7: with a TOFU database configured no path from create_connection to awaiting the response avoids the success edge of verify (an unreadable certificate must raise); each literal result tuple of TOFUDatabase.verify, enumerated from its source, is pushed through get and upload: (False,*) always raises CertificateChangedError with stored and presented fingerprint and without any store mutation, first_use pins exactly the verified triple, a match proceeds; the fingerprint is sha256 over DER compared with ==, first_use only without a row; statements are keyed (hostname, port); every redirect hop goes through _get_single with the hop URL's own host/port; siblings agree.",
